@@ -73,3 +73,89 @@ Example run_nontrivial :
   t_canon 3 (last (t_run 3 None ops) None) = true /\
   t_root TPed (last (t_run 3 None ops) None) = t_spec_root TPed 3 (abs_run ops).
 Proof. vm_compute. split; reflexivity. Qed.
+
+(* ====================================================================================== *)
+(* The LEGACY flat trie core/trie (Trie1.v) refines the Trie2 model (proofs: Trie1Proofs.v) *)
+(* ====================================================================================== *)
+From V Require C01.Trie1.
+From V Require Import C01.Trie1Proofs.
+
+(* One Put, every case (updateLeaf overwrite / empty trie / delete as root, with the sibling becoming
+   root, with the grandparent relinked / zero to an absent key / insert under a new parent at the
+   common prefix, as new root or below a relinked parent): no error, and the flat state represents
+   the updated tree. [repr ... true] = stored shape (root key, every Bin under its full path with
+   child links = the compressed children's full paths, leaves at full-length keys, NOTHING ELSE stored)
+   AND the dirty-list invariant Inv1 (every stored inner value is the hash of its
+   subtree or some dirty key strictly extends the node key); [repr ... false] = the shape alone. *)
+Theorem C01_trie1_put_refines : forall F fzero ped of_path add_len (f0 : F) chk h st t k v,
+  canont F fzero h t = true -> length k = h -> repr F ped of_path add_len chk h st t ->
+  exists st', Trie1.put F fzero ped of_path add_len st k v = Some st' /\
+              repr F ped of_path add_len chk h st' (update F fzero t k v).
+Proof. exact put_refines. Qed.
+Print Assumptions C01_trie1_put_refines.
+
+(* Hash(): under Inv1 the lazy rehash returns the hash of the represented tree, leaves every stored
+   inner value fresh and the dirty list empty *)
+Theorem C01_trie1_commit_fixes : forall F fzero ped of_path add_len f0 h st t,
+  canont F fzero h t = true -> repr F ped of_path add_len true h st t ->
+  exists st', Trie1.commit F ped of_path add_len f0 h st = Some (st', root F ped of_path add_len f0 t) /\
+    repr F ped of_path add_len true h st' t /\
+    match t with
+    | Some n => Trie1.dirty st' = nil /\ T F (Pfresh F ped of_path add_len) (Trie1.nodes st') nil n
+    | None => True
+    end.
+Proof. exact commit_fixes. Qed.
+Print Assumptions C01_trie1_commit_fixes.
+
+(* the refinement: for EVERY update sequence the legacy trie's Hash() is the root of the Trie2 model *)
+Theorem C01_trie1_refines : forall F fzero ped of_path add_len f0 h ops, ops_ok F h ops ->
+  Trie1.root1 F ped of_path add_len f0 h (Trie1.run1 F fzero ped of_path add_len ops) =
+  Some (root F ped of_path add_len f0 (run F fzero h ops)).
+Proof. exact trie1_refines. Qed.
+Print Assumptions C01_trie1_refines.
+
+(* ... also with Hash() calls (None) interleaved anywhere between the Puts *)
+Theorem C01_trie1_refines_interleaved : forall F fzero ped of_path add_len f0 h ops,
+  ops_ok F h (puts_of F ops) ->
+  Trie1.root1 F ped of_path add_len f0 h
+    (fold_left (step1 F fzero ped of_path add_len f0 h) ops (Some (Trie1.empty1 F))) =
+  Some (root F ped of_path add_len f0 (run F fzero h (puts_of F ops))).
+Proof. exact trie1_refines_interleaved. Qed.
+Print Assumptions C01_trie1_refines_interleaved.
+
+(* hence the legacy trie's root is the Merkle-Patricia commitment of the resulting key/value set *)
+Theorem C01_trie1_root_is_commitment : forall F fzero ped of_path add_len f0 h ops m,
+  ops_ok F h ops -> wf_map F fzero h m ->
+  (forall k, length k = h -> arun F fzero ops k = assoc F m k) ->
+  Trie1.root1 F ped of_path add_len f0 h (Trie1.run1 F fzero ped of_path add_len ops) =
+  Some (spec_root F ped of_path add_len f0 h m).
+Proof.
+  intros. rewrite trie1_refines by assumption. f_equal. apply root_is_spec; assumption.
+Qed.
+Print Assumptions C01_trie1_root_is_commitment.
+
+(* the node set is a function of the key/value set: two update sequences that end in the same map
+   leave, after Hash(), the same root key and extensionally the same stored node map (keys, child
+   links and stored values) -- what the harness compares with the real database *)
+Theorem C01_trie1_node_map_function_of_set : forall F fzero ped of_path add_len f0 h ops1 ops2,
+  ops_ok F h ops1 -> ops_ok F h ops2 ->
+  (forall k, length k = h -> arun F fzero ops1 k = arun F fzero ops2 k) ->
+  exists st1 st2,
+    committed F fzero ped of_path add_len f0 h ops1 = Some st1 /\
+    committed F fzero ped of_path add_len f0 h ops2 = Some st2 /\
+    Trie1.root_key st1 = Trie1.root_key st2 /\
+    forall q, Trie1.nget F (Trie1.nodes st1) q = Trie1.nget F (Trie1.nodes st2) q.
+Proof.
+  intros. apply committed_determined; try assumption. apply (run_same_map F fzero h); assumption.
+Qed.
+Print Assumptions C01_trie1_node_map_function_of_set.
+
+(* non-vacuity: the same concrete history on the flat model, Hash() after some of the Puts only *)
+Example trie1_nontrivial :
+  let ops := [(5, 7, false); (1, 2, true); (5, 0, false); (4, 9, false); (6, 0, true); (4, 3, false); (2, 8, true)]%Z in
+  let ops2 := map (fun x => (fst (fst x), snd (fst x))) ops in
+  match snd (t1_run TPed 3 t1_empty ops) with
+  | Some st => t1_commit TPed 3 st = Some (st, t_spec_root TPed 3 (abs_run ops2)) /\ t1_dirty st = []
+  | None => False
+  end.
+Proof. vm_compute. split; reflexivity. Qed.
